@@ -372,3 +372,9 @@ def py_urlsafe_match(b):
 
 def ascii_only(b):
     return all(c < 128 for c in b) if isinstance(b, bytes) else all(ord(c) < 128 for c in b)
+
+
+def shared_writes(out):
+    """Descriptions of heap writes, during the call, to objects that existed before it (registries, algorithm
+    models, class tables, keys, key sets).  Only the symbolic evaluator observes writes; natively: []."""
+    return []
